@@ -122,11 +122,14 @@ impl AsFd for Fd {
 enum Leaf {
     Gen(Generic<Fd>),
     Raw { fd: Fd, token: Option<Token> },
+    Tim(calloop::timer::Timer),
 }
 
 struct Composite {
     leaves: Vec<Leaf>,
     want_rereg: Rc<Cell<bool>>,
+    /// indices of the leaves whose callback ran
+    ran: Rc<std::cell::RefCell<Vec<usize>>>,
 }
 
 impl EventSource for Composite {
@@ -139,12 +142,14 @@ impl EventSource for Composite {
     where
         F: FnMut((), &mut ()),
     {
-        for leaf in self.leaves.iter_mut() {
+        let ran = self.ran.clone();
+        for (i, leaf) in self.leaves.iter_mut().enumerate() {
             match leaf {
                 Leaf::Gen(g) => {
                     g.process_events(r, t, |_, f| {
                         let mut b = [0u8; 8];
                         let _ = rustix::io::read(f.as_fd(), &mut b);
+                        ran.borrow_mut().push(i);
                         cb((), &mut ());
                         Ok(PostAction::Continue)
                     })?;
@@ -153,8 +158,16 @@ impl EventSource for Composite {
                     if *token == Some(t) {
                         let mut b = [0u8; 8];
                         let _ = rustix::io::read(fd.as_fd(), &mut b);
+                        ran.borrow_mut().push(i);
                         cb((), &mut ());
                     }
+                }
+                Leaf::Tim(tm) => {
+                    let _ = tm.process_events(r, t, |_, _| {
+                        ran.borrow_mut().push(i);
+                        cb((), &mut ());
+                        calloop::timer::TimeoutAction::Drop
+                    });
                 }
             }
         }
@@ -165,6 +178,7 @@ impl EventSource for Composite {
         for leaf in self.leaves.iter_mut() {
             match leaf {
                 Leaf::Gen(g) => g.register(poll, tf)?,
+                Leaf::Tim(tm) => tm.register(poll, tf)?,
                 Leaf::Raw { fd, token } => {
                     let t = tf.token();
                     unsafe { poll.register(fd.as_fd(), Interest::READ, Mode::Level, t)? };
@@ -179,6 +193,7 @@ impl EventSource for Composite {
         for leaf in self.leaves.iter_mut() {
             match leaf {
                 Leaf::Gen(g) => g.reregister(poll, tf)?,
+                Leaf::Tim(tm) => tm.reregister(poll, tf)?,
                 Leaf::Raw { fd, token } => {
                     let t = tf.token();
                     poll.reregister(fd.as_fd(), Interest::READ, Mode::Level, t)?;
@@ -193,6 +208,7 @@ impl EventSource for Composite {
         for leaf in self.leaves.iter_mut() {
             match leaf {
                 Leaf::Gen(g) => g.unregister(poll)?,
+                Leaf::Tim(tm) => tm.unregister(poll)?,
                 Leaf::Raw { fd, token } => {
                     poll.unregister(fd.as_fd())?;
                     *token = None;
@@ -212,14 +228,22 @@ fn composite(leaves: &str, ops: &str) -> String {
     let epfd = el.as_raw_fd();
     let fds: Vec<Fd> = leaves.chars().map(|_| Fd(Rc::new(eventfd(0, EventfdFlags::CLOEXEC | EventfdFlags::NONBLOCK).unwrap()))).collect();
     let want_rereg = Rc::new(Cell::new(false));
+    let ran = Rc::new(std::cell::RefCell::new(Vec::new()));
+    let has_timer = leaves.contains('t');
     let src = Composite {
         leaves: leaves
             .chars()
             .zip(fds.iter())
-            .map(|(c, fd)| if c == 'g' { Leaf::Gen(Generic::new(fd.clone(), Interest::READ, Mode::Level)) } else { Leaf::Raw { fd: fd.clone(), token: None } })
+            .map(|(c, fd)| match c {
+                'g' => Leaf::Gen(Generic::new(fd.clone(), Interest::READ, Mode::Level)),
+                't' => Leaf::Tim(calloop::timer::Timer::from_duration(std::time::Duration::from_millis(25))),
+                _ => Leaf::Raw { fd: fd.clone(), token: None },
+            })
             .collect(),
         want_rereg: want_rereg.clone(),
+        ran: ran.clone(),
     };
+    let kinds: Vec<char> = leaves.chars().collect();
     let token = match el.handle().insert_source(src, |_, _, _| {}) {
         Ok(t) => t,
         Err(_) => return "insert-err".into(),
@@ -228,7 +252,11 @@ fn composite(leaves: &str, ops: &str) -> String {
     let stage = |out: &mut Vec<String>, own: &mut bool| {
         let s = std::fs::read_to_string(format!("/proc/self/fdinfo/{}", epfd)).unwrap_or_default();
         let mut subs = Vec::new();
-        for fd in &fds {
+        for (fi, fd) in fds.iter().enumerate() {
+            if kinds[fi] == 't' {
+                subs.push("t".to_string());
+                continue;
+            }
             let raw = fd.0.as_raw_fd();
             let mut found = None;
             for l in s.lines().filter(|l| l.starts_with("tfd:")) {
@@ -258,13 +286,29 @@ fn composite(leaves: &str, ops: &str) -> String {
             "disable" => ok &= el.handle().disable(&token).is_ok(),
             "enable" => ok &= el.handle().enable(&token).is_ok(),
             "rereg" => {
-                want_rereg.set(true);
-                let _ = rustix::io::write(fds[0].as_fd(), &1u64.to_ne_bytes());
-                ok &= el.dispatch(Some(std::time::Duration::ZERO), &mut ()).is_ok();
+                // an event on the first fd-backed leaf, answered by PostAction::Reregister
+                if let Some(i) = kinds.iter().position(|c| *c != 't') {
+                    want_rereg.set(true);
+                    let _ = rustix::io::write(fds[i].as_fd(), &1u64.to_ne_bytes());
+                    ok &= el.dispatch(Some(std::time::Duration::ZERO), &mut ()).is_ok();
+                }
             }
             _ => {}
         }
         stage(&mut out, &mut own);
     }
-    format!("{} own={} ok={}", out.join(";"), own, ok)
+    // the timers run out: only timer leaves have a reason to be called back
+    let mut fired = String::from("-");
+    if has_timer {
+        ran.borrow_mut().clear();
+        std::thread::sleep(std::time::Duration::from_millis(40));
+        ok &= el.dispatch(Some(std::time::Duration::ZERO), &mut ()).is_ok();
+        let mut v = ran.borrow().clone();
+        v.sort();
+        v.dedup();
+        if !v.is_empty() {
+            fired = v.iter().map(|i| i.to_string()).collect::<Vec<_>>().join(",");
+        }
+    }
+    format!("{} own={} ok={} fired={}", out.join(";"), own, ok, fired)
 }
